@@ -87,6 +87,10 @@ func genGuards() {
 	emit("guard_split_auth_header", "pkg/middleware/session_utils.go", "splitAuthHeader", "len(s)", "", 0)
 	emit("guard_basic_credentials", "pkg/middleware/session_utils.go", "getBasicAuthCredentials", "len(pair)", "", 0)
 	emit("guard_parse_jwt", "pkg/providers/util/claim_extractor.go", "parseJWT", "len(parts)", "", 0)
+	// provider decoders repaired by fix: commits (KNOWN_FINDINGS.txt F16, F18, F19): the guard must still be there
+	emit("guard_google_id_token", "providers/google.go", "claimsFromIDToken", "len(jwt)", "", 0)
+	emit("guard_logingov_keys", "providers/logingov.go", "checkNonce", "len(pubkeys.Keys)", "", 0)
+	emit("guard_azure_other_mails", "providers/azure.go", "getEmailFromJSON", "len(otherMails)", "", 0)
 	g.write("Guards.v")
 }
 
